@@ -13,8 +13,8 @@ def determinism(R, ids, seeds):
     for pid in ids:
         spec = R.CHECKS[pid]
         with R.Scratch() as scratch:
-            overlay, _ = R.instrument(spec, scratch)
-            binp = R.build_harness(spec, scratch, overlay)
+            overlay, rep_ = R.instrument(spec, scratch)
+            binp = R.build_harness(spec, scratch, overlay, replaces=rep_.get("_replaces"))
             procs = []
             n = 0
             for base in (0, seeds):          # two disjoint index ranges
